@@ -865,7 +865,9 @@ class CallMixin:
                           _forall_pat([k], z3.Implies(z3.And(k >= 0, k < n), z3.And(
                               pi(k) >= 0, pi(k) < n, self.list_get(A, k) == self.list_get(B, pi(k)), pinv(pi(k)) == k)), [self.list_get(A, k)]),
                           _forall_pat([k], z3.Implies(z3.And(k >= 0, k < n), z3.And(
-                              pinv(k) >= 0, pinv(k) < n, pi(pinv(k)) == k)), [self.list_get(B, k)]))
+                              pinv(k) >= 0, pinv(k) < n, pi(pinv(k)) == k,
+                              # consequence of the first clause at pinv(k), stated so that an element of B names its position in A
+                              self.list_get(A, pinv(k)) == self.list_get(B, k))), [self.list_get(B, k)]))
         return self.perm_structural(A.z, B.z, 0)
 
     def perm_structural(self, az, bz, depth):
@@ -1578,7 +1580,15 @@ class CallMixin:
                     lt = TList(t)
                     recv = self.coerce(recv, lt, node)
             n = self.list_len(recv)
-            new = self.mk_list(lt, n + 1, z3.Store(self.list_arr(recv), n, self.coerce(x, lt.elem, node).z))
+            stored = z3.Store(self.list_arr(recv), n, self.coerce(x, lt.elem, node).z)
+            if self.mode == "INV" and lt.elem.kind == "Ref" and not self.dry:
+                # same list, named: `old[j] == new[j]` below is a consequence of the store, stated with the OLD list as trigger so
+                # that a membership witness found in the old list is carried over to the new one by e-matching
+                arr = self.fresh(stored.sort(), "app")
+                self.assume(arr == stored, st)
+                self.assume(self.forall_idx(n, lambda j: z3.Select(self.list_arr(recv), j) == z3.Select(arr, j)), st)
+                stored = arr
+            new = self.mk_list(lt, n + 1, stored)
             return new, none
         if attr == "extend":
             o = self.realize(args[0], st, node)
